@@ -59,6 +59,10 @@ pub struct LlrStats {
     /// per position of the frame (codeword order): up to 64 distinct LLR bit patterns seen, and the number of frames
     pub pos_distinct: Vec<std::collections::HashSet<u64>>,
     pub frames: u64,
+    /// digests of whole frames (up to 300 000), frames seen again, and the decoders (workers) that delivered frames
+    pub frame_digests: std::collections::HashSet<u64>,
+    pub dup_frames: u64,
+    pub decoders: std::collections::HashSet<usize>,
 }
 
 impl LlrStats {
@@ -134,7 +138,14 @@ impl LdpcDecoder for ScriptedDecoder {
         let act = (self.script)(self.id, seq);
         let hard: Vec<u8> = llrs.iter().map(|&x| (x <= 0.0) as u8).collect();
         if self.shared.collect_llrs {
-            self.shared.llr_stats.lock().unwrap().add_frame(llrs, true);
+            let mut st = self.shared.llr_stats.lock().unwrap();
+            st.add_frame(llrs, true);
+            // two frames with the same LLR vector (noise is continuous: different workers, or one worker twice, must never repeat a frame)
+            let mut d = 0xcbf29ce484222325u64;
+            for x in llrs { d = (d ^ x.to_bits()).wrapping_mul(0x100000001b3); }
+            if !st.frame_digests.insert(d) { st.dup_frames += 1; }
+            if st.frame_digests.len() > 300_000 { st.frame_digests.clear(); }
+            st.decoders.insert(self.id);
         }
         let (word, ok, iters, name, flips) = match &act {
             Act::Good { iters } => (hard.clone(), true, *iters, "good", 0),
